@@ -358,6 +358,12 @@ def family(name, quick=True):
             p_ = collector(nw, ("A", "A", "A"), 3)
             p_["steps"]["a"]["body"] = [{"op": "send", "ty": "A", "n": 3, "same": True}, G, {"op": "none"}]
             out.append(("collector_equal(nw=%d,AAA,3)" % nw, p_, []))
+            # ... delivered by RETRIED invocations (each fails once before it reaches collect_events)
+            import copy as _copy
+            pr_ = _copy.deepcopy(p_)
+            pr_["steps"]["c"]["retry"] = {"max": 2, "wait": ["fixed", 0]}
+            pr_["steps"]["c"]["body"] = [G, {"op": "fail", "until": 1}, {"op": "collect", "expected": ["A", "A", "A"]}, {"op": "ret", "ty": "C"}]
+            out.append(("collector_equal_retried(nw=%d,AAA,3)" % nw, pr_, []))
     elif name == "collect2":
         out.append(("two_buffers(nw=2)", two_buffers(2), []))
     elif name == "equal_events":
